@@ -114,14 +114,15 @@ def generate(seed, prop):
     rng = rng_for(seed)
     n_rec = rng.randint(2, 6)
     any_big = rng.random() < (0.3 if prop == "C09" else 0.12)
-    many = prop == "C03" and rng.random() < 0.03          # hundreds of (short) recordings in one call are legal too
+    many = prop == "C03" and rng.random() < 0.04          # hundreds of (short) recordings in one call are legal too
     if many:
         n_rec, any_big = rng.randint(257, 300), False
     recs = [draw_record(rng, any_big and rng.random() < 0.5) for _ in range(n_rec)]
     if many:
+        one_group = rng.random() < 0.6                       # (mostly) one time-step group of more than 256 recordings
         for r in recs:
             r["n"] = rng.randint(40, 90)
-            r["rate"] = rng.choice([100, 100, 100, 200])
+            r["rate"] = 100 if one_group else rng.choice([100, 100, 100, 200])
     if rng.random() < 0.6:                                  # deliberate duplicates of a time step
         for r in recs[1:]:
             if rng.random() < 0.5:
